@@ -30,12 +30,12 @@ CHECKS = {
    note='Trusted: Coq kernel (axiom-free), translator T5, class size invariants written by hand in ObjectsDefs.v, unique_ptr/std::vector value semantics, extraction.',
    design='5/C15'),
  'C16': dict(
-   technique='Coq proof of the finite-map semantics (storage order, stored zeros), of every elimination step as the dense row operation (law-free) and of the LU identity A = (I+L)U by induction over the rows + exact-rational correspondence of factorizeWithHashing/solveInPlace',
-   text='PARTIAL. Proved for all matrices: the hashed row container is a finite map (last stored value wins, absent = 0), so the matrix '
+   technique='Coq proof of the finite-map semantics (storage order, stored zeros), of every elimination step as the dense row operation (law-free), of the LU identity A = (I+L)U and of the exactness of both substitution loops, hence A (solve b) = b, by induction over the rows + exact-rational correspondence of factorizeWithHashing/solveInPlace',
+   text='Proved for all matrices (exact arithmetic; PARTIAL only with respect to floating-point rounding and finding F4): the hashed row container is a finite map (last stored value wins, absent = 0), so the matrix '
         'does not depend on the order of entries within a row nor on explicitly stored zeros; one elimination step is the dense row operation entry by entry in any arithmetic '
-        '(fill-in on demand); with non-vanishing pivots the stored factors satisfy A = (I + L) U with U upper triangular. Not a theorem: exactness of the substitution loops '
-        '(A (solve b) = b) -- the model is executed in exact rationals against the real solver on random patterns (unsorted, stored zeros, both CSR constructors, rows scaled '
-        'over 20 orders of magnitude) and the residual of the real result is evaluated exactly, row-wise.',
+        '(fill-in on demand); with non-vanishing pivots the stored factors satisfy A = (I + L) U with U upper triangular, and the vector returned by the solve satisfies A x = b '
+        '(C16_solve_correct: every matrix size, any storage order, exact arithmetic). Not a theorem: floating-point rounding -- the model is executed in exact rationals against the real '
+        'solver on random patterns (unsorted, stored zeros, both CSR constructors, rows scaled over 20 orders of magnitude) and the residual of the real result is evaluated exactly, row-wise.',
    note='Trusted: Coq kernel (axiom-free), hand model SparseLUDefs.v, unordered_map modelled as finite map, extraction (ExtrOcamlBasic+ExtrOcamlZBigInt). Known finding F4 listed in known_findings.txt.',
    design='5/C16'),
  'C08': dict(
